@@ -292,7 +292,8 @@ func (ctx *crashCtx) allowed(k int, cut map[int]int, power bool) (lo, hi int) {
 			lo = j
 		}
 		// C04: a batch created with the Sync option is durable once Commit has returned, whatever was synced when
-		if op := r.MutOp[j]; op >= 0 && op < len(ctx.kinds) && ctx.kinds[op] == "batch" && r.C.Clients[0][op].Flag &&
+		// (a batch that staged nothing writes nothing and so has nothing to make durable)
+		if op := r.MutOp[j]; hasData && op >= 0 && op < len(ctx.kinds) && ctx.kinds[op] == "batch" && r.C.Clients[0][op].Flag &&
 			(op <= returned || op < curOp) {
 			lo = j
 			r.inc("sync_batch_durability_demanded")
